@@ -287,16 +287,19 @@ class TransformToMarkdown:
     def __handle_pragma_processing(
         cls, pragma_token: PragmaToken, transformed_data: str
     ) -> str:
+        # Pragmas using the alternate prefix are recorded under the negative of
+        # their line number, so order and place every pragma by the line itself.
         ordered_lines = collections.OrderedDict(
-            sorted(pragma_token.pragma_lines.items())
+            sorted(pragma_token.pragma_lines.items(), key=lambda item: abs(item[0]))
         )
 
-        for next_line_number in ordered_lines:
+        for recorded_line_number in ordered_lines:
+            next_line_number = abs(recorded_line_number)
             POGGER.debug(
-                f"pragma-->{ParserHelper.make_value_visible(ordered_lines[next_line_number])}<--"
+                f"pragma-->{ParserHelper.make_value_visible(ordered_lines[recorded_line_number])}<--"
             )
             detabified_pragma = TabHelper.detabify_string(
-                ordered_lines[next_line_number]
+                ordered_lines[recorded_line_number]
             )
             POGGER.debug(
                 f"pragma-->{ParserHelper.make_value_visible(detabified_pragma)}<--"
